@@ -124,6 +124,10 @@ const DIRECTED: u64 = 1_000_000;
 /// directed history with more than 256 regions (512-byte pages, 16-page regions, a few megabytes of data): region
 /// numbers above 255 exist, so that anything ordering or indexing regions by their encoded bytes shows
 const DIRECTED_MANY_REGIONS: u64 = 1_000_001;
+/// directed history: a multi-region file (512-byte pages, 16 KiB regions) whose snapshot-writing commit (clean close;
+/// quick-repair commit) gives a trailing region back, reopened through the snapshot, then filled far beyond its size
+/// again (the allocator has to look past the existing regions and grow the file)
+const DIRECTED_TRIM_REFILL: u64 = 1_000_002;
 
 #[derive(Clone, Copy, PartialEq, Eq, Debug)]
 enum Kind {
@@ -157,6 +161,14 @@ struct H {
     nontrivial: bool,
     /// the next transactions load a few megabytes (directed many-regions history)
     bulk_pending: u32,
+    /// ownership-level correspondence (coq/Reopen/Snapshot.v): events for the extracted model / what the crate did
+    xev: String,
+    ximpl: String,
+    xstarted: bool,
+    /// durable transaction id the crate showed at the last event (what a crash image is expected to hold as primary)
+    xlast_id: u64,
+    /// (inside stop_crash_midcommit the probe is pointless: the history is cut inside that very commit)
+    no_probe: bool,
 }
 
 impl H {
@@ -192,11 +204,142 @@ impl H {
             m: BTreeMap::new(),
             nontrivial: false,
             bulk_pending: 0,
+            xev: String::new(),
+            ximpl: String::new(),
+            xstarted: false,
+            xlast_id: 0,
+            no_probe: false,
         }
     }
 
     fn mark(&mut self, k: &str) {
         *self.m.entry(k.to_string()).or_default() += 1;
+    }
+
+    /// what the crate's state says about the facts the ownership-level model carries: needs_repair latch,
+    /// allocator-state table under the DURABLE system root (its id), two-phase flag, durable transaction id
+    fn real_facts(db: &Database) -> Option<(bool, Option<u64>, bool, u64)> {
+        let snap = catch(|| db.verif_snapshot()).ok()?;
+        let d = snap.mem.durable().clone();
+        let r = catch(|| db.verif_reach(d.data_root, d.system_root)).ok()?.ok()?;
+        Some((snap.mem.needs_repair, r.allocator_state_transaction_id, snap.mem.header_two_phase_commit, d.transaction_id))
+    }
+
+    fn real_line(f: (bool, Option<u64>, bool, u64), path: Option<&str>) -> String {
+        format!(
+            "x nrep={} snap={} tpc={} id={}{}",
+            u8::from(f.0),
+            f.1.map(|x| x.to_string()).unwrap_or_else(|| "-".into()),
+            u8::from(f.2),
+            f.3,
+            path.map(|p| format!(" path={p}")).unwrap_or_default()
+        )
+    }
+
+    /// model state taken from observation (start of a history, stop in the middle of a commit)
+    fn xresync(&mut self) {
+        let Some(db) = self.db.as_ref() else { return };
+        let Some(f) = Self::real_facts(db) else { return };
+        self.xstarted = true;
+        self.xlast_id = f.3;
+        writeln!(self.xev, "x resync id={} snap={} tpc={}", f.3, f.1.map(|x| x.to_string()).unwrap_or_else(|| "-".into()), u8::from(f.2)).unwrap();
+        writeln!(self.ximpl, "{}", Self::real_line((false, f.1, f.2, f.3), None)).unwrap();
+        self.mark("x_resync");
+    }
+
+    /// one event of the recorded history for the extracted model + what the crate's state shows after it
+    fn xevent(&mut self, ev: &str, path: Option<&str>) {
+        if !self.xstarted {
+            self.xresync();
+            if !self.xstarted {
+                return;
+            }
+        }
+        let Some(db) = self.db.as_ref() else { return };
+        let Some(f) = Self::real_facts(db) else { return };
+        self.xlast_id = f.3;
+        writeln!(self.xev, "x {ev}").unwrap();
+        writeln!(self.ximpl, "{}", Self::real_line(f, path)).unwrap();
+        self.mark(&format!("x_{}", ev.split(' ').next().unwrap()));
+    }
+
+    /// After a quick-repair commit: open a COPY of the file as a new process would after a crash right now.
+    /// S2: path taken vs the model's `open_path` of the carried image. S3 (snapshot_exact on the implementation):
+    /// what the saved table makes the allocator hold == the pages required by the version that commit published.
+    fn probe_snapshot(&mut self) {
+        if !self.xstarted {
+            return;
+        }
+        let img = self.backend.snapshot();
+        let copy = RecBackend::with_data(img);
+        let (db2, fired) = match open_db(copy.handle(), self.cfg) {
+            Ok(x) => x,
+            Err(e) => {
+                self.fail(format!("after a quick-repair commit: a copy of the file does not open: {e}"));
+                return;
+            }
+        };
+        let path = if fired > 0 { "rebuild" } else { "load" };
+        let r = own_check(&db2);
+        let tracker = Self::tracker_phantom(&db2);
+        let facts = self.db.as_ref().and_then(Self::real_facts);
+        let _ = catch(move || drop(db2));
+        if let Some(f) = facts {
+            writeln!(self.xev, "x probe").unwrap();
+            writeln!(self.ximpl, "{}", Self::real_line(f, Some(path))).unwrap();
+            self.mark(&format!("x_probe_{path}"));
+        }
+        match r {
+            Ok(i) => {
+                if fired == 0 && i.snapshot_txid != Some(i.durable_txid) {
+                    self.fail(format!("after a quick-repair commit: the saved allocator state was loaded although its id {:?} is not the id {} of the commit being opened", i.snapshot_txid, i.durable_txid));
+                }
+            }
+            Err(e) => {
+                if fired == 0 {
+                    self.fail(format!("SNAPSHOT-NOT-EXACT after a quick-repair commit, opening a copy of the file through the saved allocator state: {e}"));
+                } else {
+                    self.fail(format!("after a quick-repair commit, opening a copy of the file (rebuild): {e}"));
+                }
+            }
+        }
+        if let Some(w) = tracker {
+            self.fail(format!("after a quick-repair commit, opening a copy of the file (path {path}): {w}"));
+        }
+    }
+
+    /// The loaded region tracker must not offer a region that has no allocator (a phantom region is handed to
+    /// `get_region_mut` as soon as the existing regions are full). General oracle on every opened / checked database.
+    fn tracker_phantom(db: &Database) -> Option<String> {
+        let snap = catch(|| db.verif_snapshot()).ok()?;
+        if !snap.mem.allocators_loaded || snap.mem.region_tracker_bytes.len() < 4 {
+            return None;
+        }
+        let bytes = snap.mem.region_tracker_bytes.clone();
+        let orders = u32::from_le_bytes(bytes[..4].try_into().unwrap());
+        let n = snap.mem.regions.len() as u32;
+        let r = catch(move || {
+            let mut t = redb::verif::VRegionTracker::from_bytes(&bytes);
+            // highest order first: mark_full(o, r) also marks the orders above o
+            for o in (0..orders.min(64) as u8).rev() {
+                let mut guard = 0;
+                while let Some(r) = t.find_free(o) {
+                    if r >= n {
+                        return Some(format!("the region tracker offers region {r} for order {o}, but only {n} region allocator(s) exist"));
+                    }
+                    t.mark_full(o, r);
+                    guard += 1;
+                    if guard > 1_000_000 {
+                        break;
+                    }
+                }
+            }
+            None
+        });
+        match r {
+            Ok(x) => x,
+            Err(p) => Some(format!("decoding the region tracker panicked: {p}")),
+        }
     }
 
     fn fail(&mut self, what: String) {
@@ -307,10 +450,22 @@ impl H {
                     Kind::TwoPc => "commit_2pc",
                     Kind::Qr => "commit_qr",
                 });
+                let id = self.db.as_ref().and_then(Self::real_facts).map(|f| f.3).unwrap_or(0);
+                let k = match kind {
+                    Kind::OnePc => "1pc",
+                    Kind::TwoPc => "2pc",
+                    Kind::Qr => "qr",
+                };
+                self.xevent(&format!("commit k={k} id={id}"), None);
+                if kind == Kind::Qr && !self.no_probe {
+                    self.probe_snapshot();
+                }
             } else {
                 self.pending_nd = true;
                 self.mark("commit_nondurable");
             }
+        } else {
+            self.xevent("abort", None);
         }
         true
     }
@@ -329,6 +484,7 @@ impl H {
         self.healthy = false;
         self.trace.push("leak_txn".into());
         self.mark("leak_by_caught_panic");
+        self.xevent("leak", None);
     }
 
     fn check_contents(&mut self, what: &str, allowed: &[&Contents]) -> Option<usize> {
@@ -367,16 +523,25 @@ impl H {
             let l = self.db.as_ref().unwrap().verif_snapshot().mem.layout;
             !self.pending_nd && l.trailing_pages == Some(l.full_region_pages)
         };
+        // (a durable commit's free-page epilogue also leaves a pending non-durable commit)
+        let pending_before = catch(|| self.db.as_ref().unwrap().verif_snapshot().mem.read_from_secondary).unwrap_or(self.pending_nd);
         let db = self.db.as_mut().unwrap();
         let r = catch(|| db.check_integrity());
         self.absorb();
+        if let Ok(Ok(b)) = &r {
+            self.xcheck_event(pending_before, *b);
+        }
         match r {
             Ok(Ok(false)) if expect_clean && unpublished_growth => {
                 // the known finding applies only if, in addition, a second call is clean and nothing was lost
                 let (len_now, len_then) = (self.file_len(), self.len_at_durable);
                 let db = self.db.as_mut().unwrap();
+                let pending2 = catch(|| db.verif_snapshot().mem.read_from_secondary).unwrap_or(false);
                 let second = catch(|| db.check_integrity());
                 self.absorb();
+                if let Ok(Ok(b)) = &second {
+                    self.xcheck_event(pending2, *b);
+                }
                 if !matches!(second, Ok(Ok(true))) {
                     self.fail(format!("{what}: check_integrity() returned Ok(false) and the second call did not return Ok(true): {:?}", second.map(|r| r.map_err(|e| e.to_string()))));
                     return false;
@@ -424,10 +589,29 @@ impl H {
         }
     }
 
+    /// check_integrity as an event of the ownership-level model: either it promoted a pending non-durable commit
+    /// (an ordinary one-phase durable commit, recognisable by the cleared two-phase flag) or it rebuilt the
+    /// durable state and, when not clean, committed it again under the next id
+    fn xcheck_event(&mut self, pending_before: bool, verdict: bool) {
+        let f = self.db.as_ref().and_then(Self::real_facts);
+        match f {
+            Some(f) if pending_before && !f.2 => self.xevent(&format!("promote id={}", f.3), None),
+            Some(_) => self.xevent(&format!("check clean={}", u8::from(verdict)), None),
+            None => {}
+        }
+    }
+
     fn own(&mut self, what: &str) -> Option<OwnInfo> {
         let db = self.db.as_ref().unwrap();
+        let tr = Self::tracker_phantom(db);
         match own_check(db) {
-            Ok(i) => Some(i),
+            Ok(i) => {
+                if let Some(w) = tr {
+                    self.fail(format!("{what}: REGION-TRACKER {w}"));
+                    return None;
+                }
+                Some(i)
+            }
             Err(e) => {
                 self.fail(format!("{what}: {e}"));
                 None
@@ -461,6 +645,15 @@ impl H {
         self.durable_point();
         fill_tree_facts(self.db.as_ref().unwrap(), &mut facts);
         let path = if fired > 0 { "rebuild" } else { "load" };
+        if stop.starts_with("clean-close") {
+            self.xevent("close", Some(path));
+        } else if stop.starts_with("crash-boundary") && facts.slots[facts.primary as usize].txid == self.xlast_id && facts.slots[facts.primary as usize].cksum_ok {
+            // the image holds the last durable commit as its primary slot: the case the ownership-level model expresses
+            self.xevent("crash", Some(path));
+        } else {
+            // header in flux (a stop inside a commit, or before the very first commit reached the disk): byte-level model only
+            self.xresync();
+        }
         self.mark(&format!("open_{path}"));
         self.mark(&format!("stop_{}", stop.split(':').next().unwrap()));
         let what = format!("after {stop} (open path: {path})");
@@ -564,7 +757,10 @@ impl H {
         self.absorb();
         let before_log = self.log.clone();
         let before = self.spec_durable.clone();
-        if !self.txn(true) {
+        self.no_probe = true;
+        let ok = self.txn(true);
+        self.no_probe = false;
+        if !ok {
             return;
         }
         let after = self.spec_durable.clone();
@@ -665,6 +861,109 @@ impl H {
         self.discard_process();
     }
 
+    /// insert `keys` (700-byte values) into table "a" in one durable transaction, spec kept in step
+    fn direct_insert(&mut self, keys: std::ops::Range<u64>, qr: bool) -> bool {
+        let mut spec = self.spec_latest.clone();
+        let label = format!("directed: insert {}..{} qr={qr}", keys.start, keys.end);
+        let r = {
+            let db = self.db.as_ref().unwrap();
+            let m = spec.normal.entry("a".to_string()).or_default();
+            catch(|| {
+                let mut t = db.begin_write().map_err(|e| e.to_string())?;
+                t.set_quick_repair(qr);
+                {
+                    let mut tab = t.open_table(TA).map_err(|e| e.to_string())?;
+                    for k in keys {
+                        let mut v = vec![(k % 251) as u8; 700];
+                        v[..8].copy_from_slice(&k.to_le_bytes());
+                        tab.insert(&k, v.as_slice()).map_err(|e| e.to_string())?;
+                        m.insert(k, v);
+                    }
+                }
+                t.commit().map_err(|e| e.to_string())
+            })
+        };
+        self.absorb();
+        self.trace.push(label.clone());
+        match r {
+            Ok(Ok(())) => {
+                self.spec_latest = spec;
+                self.spec_durable = self.spec_latest.clone();
+                self.durable_point();
+                let id = self.db.as_ref().and_then(Self::real_facts).map(|f| f.3).unwrap_or(0);
+                self.xevent(&format!("commit k={} id={id}", if qr { "qr" } else { "1pc" }), None);
+                if qr {
+                    self.probe_snapshot();
+                }
+                !self.dead
+            }
+            Ok(Err(e)) => {
+                self.fail(format!("{label}: failed: {e}"));
+                false
+            }
+            Err(p) => {
+                self.fail(format!("{label}: panicked: {p}"));
+                false
+            }
+        }
+    }
+
+    fn run_directed_trim_refill(&mut self) {
+        self.cfg = Cfg { page_size: 512, region_size: Some(512 * 32), cache: 256 * 1024 };
+        match open_db(self.backend.handle(), self.cfg) {
+            Ok((db, _)) => self.db = Some(db),
+            Err(e) => {
+                self.fail(format!("create failed: {e}"));
+                return;
+            }
+        }
+        self.absorb();
+        self.durable_point();
+        // 1. clean close of a multi-region file, reopen through the saved state, grow far beyond the old size
+        if !self.direct_insert(0..300, false) {
+            return;
+        }
+        let before = self.file_len();
+        self.stop_clean();
+        self.mark(if self.file_len() < before { "directed_close_trimmed_file" } else { "directed_close_kept_file_size" });
+        let mut next = 300;
+        for _ in 0..3 {
+            if self.dead || !self.direct_insert(next..next + 500, false) {
+                return;
+            }
+            next += 500;
+            let latest = self.spec_latest.clone();
+            if self.check_contents("directed: after refilling past the old file size", &[&latest]).is_none() || self.own("directed: after refilling").is_none() {
+                return;
+            }
+        }
+        // 2. the same through a quick-repair commit and a crash right after it
+        if !self.direct_insert(next..next + 40, true) {
+            return;
+        }
+        next += 40;
+        self.absorb();
+        let img = self.log.image_all();
+        self.discard_process();
+        let allowed = vec![self.spec_durable.clone()];
+        self.open_image(img, "crash-boundary:all", allowed);
+        for _ in 0..3 {
+            if self.dead || !self.direct_insert(next..next + 500, false) {
+                return;
+            }
+            next += 500;
+        }
+        if !self.dead {
+            let latest = self.spec_latest.clone();
+            self.check_contents("directed: at the end", &[&latest]);
+            self.own("directed: at the end");
+        }
+        if !self.dead {
+            self.integrity("directed: at the end", true);
+        }
+        self.discard_process();
+    }
+
     fn run(&mut self, len: u64) {
         match open_db(self.backend.handle(), self.cfg) {
             Ok((db, _)) => self.db = Some(db),
@@ -752,11 +1051,16 @@ fn main() {
     if only.is_none() || only == Some(DIRECTED_MANY_REGIONS) {
         todo.push(DIRECTED_MANY_REGIONS);
     }
+    if only.is_none() || only == Some(DIRECTED_TRIM_REFILL) {
+        todo.push(DIRECTED_TRIM_REFILL);
+    }
     let work = |i: u64| -> Block {
         let mut h = H::new(i, seed, offs);
         let len = if thorough { 20 + h.r.below(40) } else { 12 + h.r.below(24) };
         if i == DIRECTED {
             h.run_directed_unpublished_growth();
+        } else if i == DIRECTED_TRIM_REFILL {
+            h.run_directed_trim_refill();
         } else if i == DIRECTED_MANY_REGIONS {
             h.cfg = Cfg { page_size: 512, region_size: Some(512 * 16), cache: 256 * 1024 };
             h.bulk_pending = 1;
@@ -769,6 +1073,8 @@ fn main() {
         b.texts.insert("outs".into(), h.outs.clone());
         b.texts.insert("viol".into(), h.viol.iter().map(|v| v.replace('\n', " ")).collect::<Vec<_>>().join("\n"));
         b.texts.insert("trace".into(), h.trace.join(";"));
+        b.texts.insert("xev".into(), h.xev.clone());
+        b.texts.insert("ximpl".into(), h.ximpl.clone());
         for (k, v) in &h.m {
             b.nums.insert(format!("m.{k}"), *v);
         }
@@ -777,6 +1083,7 @@ fn main() {
         b
     };
     let (mut cases, mut outs, mut viol) = (String::new(), String::new(), String::new());
+    let (mut xev, mut ximpl) = (String::new(), String::new());
     let mut m: BTreeMap<String, u64> = BTreeMap::new();
     let mut opens = 0;
     let mut distinct = std::collections::BTreeSet::new();
@@ -792,6 +1099,12 @@ fn main() {
                 }
                 for v in b.text("viol").lines() {
                     writeln!(viol, "{i}\t{v}").unwrap();
+                }
+                for l in b.text("xev").lines() {
+                    writeln!(xev, "{i} {l}").unwrap();
+                }
+                for l in b.text("ximpl").lines() {
+                    writeln!(ximpl, "{i} {l}").unwrap();
                 }
                 for (k, v) in &b.nums {
                     if let Some(kk) = k.strip_prefix("m.") {
@@ -809,6 +1122,8 @@ fn main() {
     std::fs::write("cases.txt", cases).unwrap();
     std::fs::write("impl.txt", outs).unwrap();
     std::fs::write("viol.txt", viol).unwrap();
+    std::fs::write("xev.txt", xev).unwrap();
+    std::fs::write("ximpl.txt", ximpl).unwrap();
     let mut st = String::new();
     writeln!(st, "histories={n} opens={opens} distinct_nontrivial={nontrivial}").unwrap();
     let k: Vec<String> = m.iter().map(|(k, v)| format!("{k}={v}")).collect();
